@@ -145,6 +145,27 @@ Theorem C04_variants_equal_styles_partial : forall cx be fuel (s1 s2 : source),
 Proof. exact same_erasure_same_model. Qed.
 Print Assumptions C04_variants_equal_styles_partial.
 
+(* 6. the quantities of the model are exactly the declared ones, with their kinds and descriptions, plus one ant_
+      quantity per transition shock and one std_ quantity per shock; log status follows the !log-variables lists *)
+Theorem C04_quantities_exactly_declared : forall (decls : list decl) (d : decl),
+  In d (all_decls decls) <->
+     (In d decls /\ In (d_kind d) entry_order)
+  \/ (exists s, In s decls /\ d_kind s = QTransitionShock /\
+                d = mkDecl QAnticipatedShockValue (append ant_prefix (d_name s)) (append ant_descr_prefix (descr_or_name s)))
+  \/ (exists s, In s decls /\ d_kind s = QTransitionShock /\
+                d = mkDecl QTransitionStd (append std_prefix (d_name s)) (append std_descr_prefix (descr_or_name s)))
+  \/ (exists s, In s decls /\ d_kind s = QMeasurementShock /\
+                d = mkDecl QMeasurementStd (append std_prefix (d_name s)) (append std_descr_prefix (descr_or_name s))).
+Proof. exact quantities_exactly_declared. Qed.
+Print Assumptions C04_quantities_exactly_declared.
+
+Theorem C04_log_status : forall (allbut : bool) (logs : list string) (d : decl),
+  logly_of allbut logs d =
+    if mem_kind (d_kind d) [QTransitionVariable; QMeasurementVariable; QExogenousVariable]
+    then Some (xorb allbut (mem_s (d_name d) logs)) else None.
+Proof. exact log_status_spec. Qed.
+Print Assumptions C04_log_status.
+
 (* non-vacuity: a lawful carrier exists; a source with a loop, a conditional inside an equation, a
    pseudofunction, a shock, a log list with !all-but compiles to the expected model *)
 Example C04_lawful_carrier_exists : lawful QcC Qcanon.Qcinv.
